@@ -205,9 +205,45 @@ def compute_name(path):
     return statements.compute_name(path)
 
 
+# statements of the body of CHelpers['copy_string'] (ShroudCopyStringAndFree), formatted helper text
+COPY_STRING_PATTERNS = [
+    (r"const char \*cxx_var = data->addr\.ccharp;", ".fetchPtr"),
+    (r"size_t n = c_var_len;", ".initN"),
+    (r"if \(data->elem_len < n\) n = data->elem_len;", ".clampN"),
+    (r"if \(n > 0\) (?:std::)?strncpy\(c_var, cxx_var, n\);(?: *//.*)?", ".copy"),
+    (r"\w+\(&data->cxx\);(?: *//.*)?", ".release"),
+]
+
+
+def copy_string_steps(language):
+    """The statements of the ShroudCopyStringAndFree body, in text order."""
+    from shroud import ast, whelpers
+    lib = ast.LibraryNode(language=language)
+    whelpers.set_library(lib)
+    whelpers.add_all_helpers()
+    text = whelpers.CHelpers["copy_string"]["source"]
+    lines = [norm(l) for l in text.split("\n")]
+    lines = [l for l in lines if l and not l.startswith("//")]
+    if not (re.fullmatch(r"void \w*ShroudCopyStringAndFree\(\w+ \*data, char \*c_var, size_t c_var_len\) \{\+", lines[0])
+            and lines[-1] == "-}"):
+        raise UnknownLine("helper copy_string: unexpected signature or end: %r ... %r" % (lines[0], lines[-1]))
+    steps = []
+    for l in lines[1:-1]:
+        for pat, step in COPY_STRING_PATTERNS:
+            if re.fullmatch(pat, l):
+                steps.append(step)
+                break
+        else:
+            raise UnknownLine("helper copy_string: no pattern for the line %r" % l)
+    return steps
+
+
 def render():
     cxx = resolved("c++")
     c = resolved("c")
+    steps = copy_string_steps("c++")
+    if steps != copy_string_steps("c"):
+        raise UnknownLine("helper copy_string differs between language c and c++")
     for a, b in zip(cxx, c):
         if a[0].startswith("c_char") and a != b:
             raise UnknownLine("entry %s differs between language c and c++: %r vs %r" % (a[1], b, a))
@@ -220,6 +256,9 @@ def render():
     for i, (lname, name, lens, pre, post) in enumerate(cxx):
         out.append("/-- %d: `%s` -/" % (i, name))
         out.append("def %s : Entry := ⟨%s, %s, %s⟩" % (lname, lst(lens), lst(pre), lst(post)))
+    out.append("")
+    out.append("/-- body of `ShroudCopyStringAndFree` (CHelpers copy_string), statements in text order -/")
+    out.append("def copyStringSteps : List Shroud.Str.CsStep := %s" % lst(steps))
     out.append("")
     out.append("def entries : List (Nat × Entry) := [")
     out.append(",\n".join("  (%d, %s)" % (i, e[0]) for i, e in enumerate(cxx)))
